@@ -13,6 +13,8 @@
              ( now:Z 7 #addr )                        Context.Leave, then the process stops
              ( now:Z 8 #addr #id )                    ForceMemberDown
     input  = ( step ... )        or   ( ( 3e8 i ) ): the output is witness schedule i of Properties/C18.v, as steps
+             or ( ( 7d0 flags ) step ... ): options first; flags bit 0 = the last-vector table of the implementation
+             could not be observed, print () for it in every node state
     output = ( ( events sends nodes ) ... )           one entry per step; a step that is not enabled prints
                                                       the error term and ends the output
     events = ( ( #addr event ) ... ), sends = ( ( #src #dst vv members ) ... ), nodes = ( ( #addr state ) ... )
@@ -21,7 +23,7 @@
              ( self view ( ( #addr vv ) ... ) ( gossip_on fd_on retry_on ) in_quorum #last_leader dc_health #leader_of_view ) *)
 From Coq Require Import List NArith ZArith.
 From stdpp Require Import gmap.
-From Vivid Require Import Base.Tm Codec.Prim Cluster.VV Cluster.VVRun Cluster.View Cluster.ViewRun Cluster.Gossip.
+From Vivid Require Import Base.Tm Codec.Prim Cluster.VV Cluster.VVRun Cluster.View Cluster.ViewRun Cluster.Gossip Cluster.GossipClean.
 Local Open Scope N_scope.
 
 Definition get_cfg (t : tm) : option cfg :=
@@ -75,10 +77,13 @@ Definition t_event (e : event) : tm :=
 Definition t_last (l : lastmap) : tm :=
   tlist (tpair TB t_vv) (isort (fun p q => lex_le (fst p) (fst q)) (map_to_list l)).
 
-Definition t_node (n : node) : tm :=
-  TL [t_state (nd_self n); t_view (nd_view n); t_last (nd_last n);
+(** [hide]: the harness could not observe the last-vector table of the implementation (a representation change of
+    NodeActor): that component is printed as () on both sides, everything else is still compared *)
+Definition t_node_opt (hide : bool) (n : node) : tm :=
+  TL [t_state (nd_self n); t_view (nd_view n); (if hide then TL [] else t_last (nd_last n));
       TL [tbool (nd_gossip_on n); tbool (nd_fd_on n); tbool (nd_retry_on n)];
       tbool (nd_inq n); TB (nd_leader n); topt tbool (nd_dch n); TB (leader_of (nd_view n))].
+Definition t_node (n : node) : tm := t_node_opt false n.
 
 Definition t_packet (p : packet) : tm :=
   TL [TB (p_src p); TB (p_dst p); t_vv (vw_vv (p_view p)); TN (N.of_nat (size (vw_members (p_view p))))].
@@ -96,13 +101,15 @@ Definition touched (w : world) (s : step) : list addr :=
 
 Definition removed_count (s : step) : nat := match s with SDeliver _ _ | SDrop _ => 1 | _ => 0 end.
 
-Definition t_step_out (w w' : world) (s : step) (log : list (list N * event)) : tm :=
+Definition t_step_out_opt (hide : bool) (w w' : world) (s : step) (log : list (list N * event)) : tm :=
   TL [tlist (tpair TB t_event) log;
       tlist t_packet (skipn (length (w_net w) - removed_count s) (w_net w'));
-      tlist (fun a => if decide (w_nodes w !! a = w_nodes w' !! a) then TL [TB a]
-                      else TL [TB a; match w_nodes w' !! a with Some n => t_node n | None => TL [] end]) (touched w s)].
+      tlist (fun a => if decide ((if hide then (fun n => set_last n ∅) <$> (w_nodes w !! a) else w_nodes w !! a) =
+                                 (if hide then (fun n => set_last n ∅) <$> (w_nodes w' !! a) else w_nodes w' !! a)) then TL [TB a]
+                      else TL [TB a; match w_nodes w' !! a with Some n => t_node_opt hide n | None => TL [] end]) (touched w s)].
+Definition t_step_out := t_step_out_opt false.
 
-Fixpoint run_steps (w : world) (l : list tm) : list tm :=
+Fixpoint run_steps_opt (hide : bool) (w : world) (l : list tm) : list tm :=
   match l with
   | [] => []
   | t :: rest =>
@@ -111,10 +118,11 @@ Fixpoint run_steps (w : world) (l : list tm) : list tm :=
       | Some (now, s) =>
           match step_world w now s with
           | None => [tm_err 2]
-          | Some (w', log) => t_step_out w w' s log :: run_steps w' rest
+          | Some (w', log) => t_step_out_opt hide w w' s log :: run_steps_opt hide w' rest
           end
       end
   end.
+Definition run_steps := run_steps_opt false.
 
 (** the schedule language, printed (inverse of [get_step]) *)
 Definition t_cfg (c : cfg) : tm :=
@@ -135,10 +143,12 @@ Definition t_step (x : Z * step) : tm :=
   end.
 
 (** the kernel-checked witness schedules of Properties/C18.v, for their replay on the real code:
-    1 = (a), 2 = (b), 3 = (c), 4 = (d), 5 = (e), 6 = (c2) *)
+    1 = (a), 2 = (b), 3 = (c), 4 = (d), 5 = (e), 6 = (c2), 7 = (g), 8 = (i) the islands instance of the convergence
+    theorem (C joins through A), 9 = (h), 10 = (i) when C joins through B *)
 Definition witness_play (i : N) : list phase :=
   match i with
-  | 1 => wa_play | 2 => wb_play | 3 => wc_play | 4 => wd_play | 5 => we_play | 6 => wh_play | _ => []
+  | 1 => wa_play | 2 => wb_play | 3 => wc_play | 4 => wd_play | 5 => we_play | 6 => wh_play
+  | 7 => wj_play | 8 => wi_play | 9 => wk_play | 10 => wi_play_b | _ => []
   end.
 Definition witness_sched (i : N) : list (Z * step) :=
   match play empty_world (witness_play i) with
@@ -150,6 +160,7 @@ Definition witness_sched (i : N) : list (Z * step) :=
 Definition run_gossip (t : tm) : tm :=
   match t with
   | TL [TL [TN 1000; TN i]] => tlist t_step (witness_sched i)
+  | TL (TL [TN 2000; TN flags] :: l) => TL (run_steps_opt (N.odd flags) empty_world l)
   | TL l => TL (run_steps empty_world l)
   | _ => tm_err 0
   end.
